@@ -215,10 +215,12 @@ package gohlslib
 //@   props C07 C08
 //@   requires nolocks() && muxerLinks(m) && len(m.streams) >= 1 && r != nil && r.URL != nil
 //@   requires oneLeader(m) && forall(i, (0 <= i && i < len(m.streams)) ==> m.streams[i] != nil)
+//@   waitinv mvInv(m)
 //@   ensures result != nil ==> (!m.closed && m.streams[0].hasContent())
 //@   ensures m.closed ==> result == nil
 //@   loop 1 invariant held(&m.mutex) && muxerLinks(m) && len(m.streams) >= 1
 //@   loop 1 invariant oneLeader(m) && forall(i, (0 <= i && i < len(m.streams)) ==> m.streams[i] != nil)
+//@   loop 1 invariant mvInv(m)
 //@ end
 
 
@@ -1080,18 +1082,18 @@ package gohlslib
 
 //@ func clientTrackProcessorFMP4.push
 //@   props C13
-//@   nosafety
+//@   requires ctx != nil
 //@ end
 
 //@ func clientStreamProcessorFMP4.joinTrackProcessors
 //@   props C13
-//@   nosafety
+//@   requires ctx != nil
 //@   ensures result == nil
 //@ end
 
 //@ func clientStreamProcessorFMP4.onPartTrackProcessed
 //@   props C13
-//@   nosafety
+//@   requires ctx != nil
 //@ end
 
 //@ func clientStreamProcessorFMP4.initialize
@@ -1130,7 +1132,6 @@ package gohlslib
 
 //@ func clientTimeConvFMP4.setLeadingNTPReceived
 //@   props C13
-//@   nosafety
 //@ end
 
 //@ func clientStreamProcessorFMP4.initializeTrackProcessors
@@ -1159,10 +1160,9 @@ package gohlslib
 
 //@ func muxerStream.initialize
 //@   props C16
-//@   nosafety
-//@   noframe
-//@   nocallpre
-//@   modifies muxerTrack.stream, s.generateMediaPlaylist, s.mpegtsSwitchableWriter, s.mpegtsWriter, muxerServer.pathHandlers
+//@   requires nolocks() && s.server.pathHandlers != nil && &s.server.mutex != s.mutex
+//@   requires s.server != nil && forall(i, (0 <= i && i < len(s.tracks)) ==> s.tracks[i] != nil)
+//@   modifies muxerTrack.stream, s.generateMediaPlaylist, s.mpegtsSwitchableWriter, s.mpegtsWriter, s.server.pathHandlers[*]
 //@ end
 
 //@ func muxerTrack.initialize
@@ -1178,14 +1178,12 @@ package gohlslib
 
 //@ func generatePrefix
 //@   props C16
-//@   nosafety
 //@ end
 
 //@ func Muxer.Start
 //@   props C16
-//@   nosafety
-//@   noframe
-//@   nocallpre
+//@   modifies *m, muxerTrack.stream
+//@   requires nolocks()
 //@   requires len(m.streams) == 0 && len(m.mtracks) == 0
 //@   requires forall(k, inTracks(m, k) ==> (m.Tracks[k] != nil && m.Tracks[k].Codec != nil))
 //@   loop 1 invariant ri < len(m.Tracks)
@@ -1200,6 +1198,7 @@ package gohlslib
 //@   loop 4 invariant ri < len(m.Tracks) && len(m.mtracks) == ri + 1 && len(m.streams) == 0
 //@   loop 4 invariant forall(k, (0 <= k && k <= ri) ==> (m.mtracks[k] != nil && m.mtracks[k].Track == m.Tracks[k] && m.mtracks[k].isLeading == leadSpec(m, k)))
 //@   loop 5 invariant len(m.mtracks) == len(m.Tracks) && ri < len(m.mtracks) && len(m.streams) == ri + 1
+//@   loop 5 invariant nolocks() && m.server != nil && m.server.pathHandlers != nil && &m.server.mutex != &m.mutex
 //@   loop 5 invariant forall(k, inTracks(m, k) ==> (m.mtracks[k] != nil && m.mtracks[k].Track == m.Tracks[k] && m.mtracks[k].isLeading == leadSpec(m, k)))
 //@   loop 5 invariant defaultAudioChosen == (!hasDefaultAudio && !firstRend(m, ri + 1))
 //@   loop 5 invariant forall(k, (0 <= k && k <= ri) ==> (m.streams[k] != nil
@@ -1214,7 +1213,7 @@ package gohlslib
 
 //@ func Muxer.Start$2
 //@   props C16
-//@   nosafety
+//@   requires m != nil
 //@   requires forall(k, (0 <= k && k < len(m.streams)) ==> m.streams[k] != nil)
 //@   loop 1 invariant ri < len(m.streams) && forall(k, (0 <= k && k <= ri) ==> !m.streams[k].isLeading)
 //@   ensures result != nil ==> result.isLeading
@@ -1245,9 +1244,7 @@ package gohlslib
 
 //@ func muxerStream.populateMultivariantPlaylist
 //@   props C16
-//@   nosafety
-//@   noframe
-//@   nocallpre
+//@   modifies pl.Renditions, pl.Variants[0].URI, pl.Variants[0].Audio, pl.Variants[0].Codecs, pl.Variants[0].Resolution, pl.Variants[0].FrameRate
 //@   requires pl != nil && len(pl.Variants) >= 1 && pl.Variants[0] != nil
 //@   requires forall(i, (0 <= i && i < len(s.tracks)) ==> (s.tracks[i] != nil && s.tracks[i].Track != nil))
 //@   loop 1 invariant ri < len(s.tracks) && pl.Variants[0] == old(pl.Variants[0]) && len(pl.Variants) == old(len(pl.Variants)) && len(pl.Renditions) == old(len(pl.Renditions))
@@ -1273,11 +1270,14 @@ package gohlslib
 //@ axiom rendcount_zero forall_as(m, *Muxer, rendcount(m, 0) == 0)
 //@ axiom rendcount_def forall_as(m, *Muxer, forall(n, n >= 1 ==> rendcount(m, n) == rendcount(m, n - 1) + ite(m.streams[n - 1].isRendition, 1, 0)))
 
+// state of the streams that the multivariant playlist reads (window shape and storage of the first stream:
+// part of the window invariant proved preserved by rotateSegments; track lists: immutable after Start)
+//@ pred mvInv(m *Muxer) := len(m.streams) >= 1 && m.streams[0] != nil && shape(m.streams[0]) && ids(m.streams[0])
+//@   && forall(i, (0 <= i && i < len(m.streams)) ==> (m.streams[i] != nil && distinctTracks(m.streams[i].tracks)))
+
 //@ func Muxer.generateMultivariantPlaylist
 //@   props C16
-//@   nosafety
-//@   noframe
-//@   nocallpre
+//@   requires mvInv(m)
 //@   requires held(&m.mutex) && muxerLinks(m) && len(m.streams) >= 1
 //@   requires oneLeader(m) && forall(i, (0 <= i && i < len(m.streams)) ==> m.streams[i] != nil)
 //@   loop 1 invariant ri < len(m.streams) && len(pl.Variants) == 1 && pl.Variants[0] != nil
@@ -1311,9 +1311,6 @@ package gohlslib
 
 //@ func muxerStream.generateMediaPlaylistFMP4
 //@   props C03 C04 C05 C06
-//@   nosafety
-//@   noframe
-//@   nocallpre
 //@   requires held(s.mutex) && s.partTargetDuration >= 0 && s.targetDuration >= 0
 //@   requires shape(s) && partsOK(s) && (s.variant == MuxerVariantLowLatency ==> (wfLL(s) && forall(p, (0 <= p && p < len(asF(s.nextSegment).parts)) ==> asF(s.nextSegment).parts[p] != nil)))
 //@   requires forall(i, (0 <= i && i < len(s.segments)) ==> (isF(s.segments[i]) || isG(s.segments[i])))
@@ -1393,9 +1390,6 @@ package gohlslib
 
 //@ func muxerStream.generateMediaPlaylistMPEGTS
 //@   props C03 C04 C05
-//@   nosafety
-//@   noframe
-//@   nocallpre
 //@   requires held(s.mutex) && forall(i, (0 <= i && i < len(s.segments)) ==> (s.segments[i] != nil && isM(s.segments[i]) && ref(s.segments[i]) != 0))
 //@   loop 1 invariant ri < len(s.segments) && len(pl.Segments) == ri + 1 && forall(k, (0 <= k && k <= ri) ==> listsTS(s, pl.Segments[k], k, rawQuery))
 //@   atcall playlist.Media.Marshal pl.Version == 3 && pl.TargetDuration == s.targetDuration && pl.MediaSequence == s.segmentDeleteCount && pl.AllowCache != nil && !*pl.AllowCache
